@@ -50,6 +50,11 @@ Definition mwd_of (m : mwc) : mwd :=
 Fixpoint zrep (v : Z) (k : nat) : list Z := match k with O => [] | S k1 => v :: zrep v k1 end.
 Definition zrle (runs : list (Z * Z)) : list Z := flat_map (fun r => zrep (fst r) (Z.to_nat (snd r))) runs.
 
+Inductive cop :=
+| KAdd (m p : Z) (h : list hop)                         (* AddRoute through the builder or the config object *)
+| KGetRoutes | KGetMw                                   (* read accessors (KGetMw also stands for the TLS getters) *)
+| KSetMw (l : list mwc) (direct : bool).                (* UsingMiddleWare / SetMiddleware *)
+
 Inductive case :=
 | CHttp (listener : Z)                                  (* 0 = HTTP, 1 = HTTPS *)
         (calls : list (Z * Z * list hop))               (* AddRoute(method, path, handler), in call order *)
@@ -58,6 +63,11 @@ Inductive case :=
         (rm rp : Z) (rh : list (Z * Z)) (rb : list Z)   (* request: method, path, X-V headers (sorted), body *)
         (st : Z) (oh : list (Z * Z)) (ob : list Z)      (* client: status, X-V headers (sorted), body *)
         (ev : list (list Z))                            (* recorder and logger events, in order *)
+(* the same exchange after a configuration SEQUENCE: AddRoute / SetMiddleware calls with read accessors
+   (GetRoutes, GetMiddleware, ...) called in between, before the server was built *)
+| CHttpSeq (listener : Z) (ops : list cop)
+        (rm rp : Z) (rh : list (Z * Z)) (rb : list Z)
+        (st : Z) (oh : list (Z * Z)) (ob : list Z) (ev : list (list Z))
 | CGrpc (regs : list (Z * Z)) (d res : Z)               (* RegisterImplementation calls; called service; answering impl or -1 *)
 | CGrpcList (regs : list (Z * Z)) (listed : list Z).    (* services the reflection service lists (our descriptors only) *)
 
@@ -128,9 +138,10 @@ Definition is_logger (e : list Z) : bool :=
 Definition rec_ids (l : list mwc) : list Z :=
   flat_map (fun m => match m with MRec i => [i] | _ => [] end) l.
 
-Definition verdict (c : case) : nat :=
-  match c with
-  | CHttp listener calls mw direct rm rp rh rb st oh ob ev =>
+(* [full] = the exchange as the complete model predicts it *)
+Definition verdict_http (listener : Z) (calls : list (Z * Z * list hop)) (mw : option (list mwc)) (direct : bool)
+           (full : reqst -> world) (rm rp : Z) (rh : list (Z * Z)) (rb : list Z)
+           (st : Z) (oh : list (Z * Z)) (ob : list Z) (ev : list (list Z)) : nat :=
       let q := {| q_method := rm; q_path := rp; q_hdr := rh; q_body := rb |} in
       let mws := match mw with Some l => l | None => [] end in
       (* M1: routing, straight from the specification on the call list *)
@@ -158,10 +169,40 @@ Definition verdict (c : case) : nat :=
         else true in
       if negb (m1 && m2 && m3) then 1%nat
       else
-        let full := exchange listener calls (mw_of mw direct) q in
+        let full := full q in
         if served then
           if client_eqb rm full st oh ob && zzlist_eqb ev (map enc (w_log full)) then 0%nat else 2%nat
-        else if Z.eqb (status_of full) st then 0%nat else 2%nat
+        else if Z.eqb (status_of full) st then 0%nat else 2%nat.
+
+(* configuration sequences: what the property reads off them, and the model's configuration phase *)
+Definition adds_c (ops : list cop) : list (Z * Z * list hop) :=
+  flat_map (fun o => match o with KAdd m p h => [(m, p, h)] | _ => [] end) ops.
+Definition last_mw (ops : list cop) : option (list mwc * bool) :=
+  fold_left (fun acc o => match o with KSetMw l d => Some (l, d) | _ => acc end) ops None.
+Fixpoint cfg_ops (i : Z) (ops : list cop) : list (@cfg_op Z handler) :=
+  match ops with
+  | [] => []
+  | KAdd m p h :: t => OAdd m p (run_h (HMark i (compile h))) :: cfg_ops (i + 1) t
+  | KGetRoutes :: t => OGetRoutes :: cfg_ops i t
+  | KGetMw :: t => OGetMiddleware :: cfg_ops i t
+  | KSetMw l d :: t =>
+      match mw_of (Some l) d with
+      | Some f => OSetMiddleware f :: cfg_ops i t
+      | None => cfg_ops i t
+      end
+  end.
+Definition exchange_seq (listener : Z) (ops : list cop) (q : reqst) : world :=
+  let c := cfg_run Z.eqb (cfg_ops 0 ops) in
+  respond (serve_handler Z.eqb (provider listener (c_routes c) (c_mw c)) (q_method q) (q_path q)) q.
+
+Definition verdict (c : case) : nat :=
+  match c with
+  | CHttp listener calls mw direct rm rp rh rb st oh ob ev =>
+      verdict_http listener calls mw direct (exchange listener calls (mw_of mw direct)) rm rp rh rb st oh ob ev
+  | CHttpSeq listener ops rm rp rh rb st oh ob ev =>
+      let mwd := last_mw ops in
+      verdict_http listener (adds_c ops) (option_map fst mwd) (match mwd with Some (_, d) => d | None => false end)
+                   (exchange_seq listener ops) rm rp rh rb st oh ob ev
   | CGrpc regs d res =>
       let spec := match (fix last (l : list (Z * Z)) (acc : Z) : Z :=
                           match l with [] => acc | (d', i) :: t => last t (if Z.eqb d d' then i else acc) end) regs (-1) with
@@ -189,6 +230,14 @@ Example corr_selftest :
   (* pinned HTTPS provider: 404 on a registered route *)
   /\ verdict (CHttp 1 [(0, 1, [OWrite [1]])] None false 0 1 [] [] 404 [] [] []) = 1%nat
   /\ verdict (CHttp 1 [(0, 1, [OWrite [1]])] None false 0 1 [] [] 200 [] [1] [[7; 0]]) = 0%nat
+  (* GetRoutes between AddRoute calls: the late route is served, a replaced handler is the new one *)
+  /\ verdict (CHttpSeq 0 [KAdd 0 0 [OWrite [1]]; KGetRoutes; KAdd 0 1 [OWrite [2]]; KAdd 0 0 [OWrite [3]]] 0 1 [] [] 200 [] [2] [[7; 1]]) = 0%nat
+  /\ verdict (CHttpSeq 0 [KAdd 0 0 [OWrite [1]]; KGetRoutes; KAdd 0 1 [OWrite [2]]; KAdd 0 0 [OWrite [3]]] 0 0 [] [] 200 [] [3] [[7; 2]]) = 0%nat
+  /\ verdict (CHttpSeq 1 [KAdd 0 0 [OWrite [1]]; KGetRoutes; KAdd 0 1 [OWrite [2]]] 0 1 [] [] 404 [] [] []) = 1%nat
+  /\ verdict (CHttpSeq 1 [KAdd 0 0 [OWrite [1]]; KGetRoutes; KAdd 0 0 [OWrite [3]]] 0 0 [] [] 200 [] [1] [[7; 0]]) = 1%nat
+  (* the middleware set last is the one applied *)
+  /\ verdict (CHttpSeq 0 [KSetMw [MRec 9] false; KAdd 0 0 [OWrite [1]]; KGetMw; KSetMw [MRec 1; MLogReq] false] 0 0 [] [] 200 [] [1]
+                       [[0; 1]; [5; 0; 0]; [7; 0]; [1; 1]]) = 0%nat
   /\ verdict (CGrpc [(1, 10); (2, 20); (1, 11)] 1 11) = 0%nat
   /\ verdict (CGrpc [(1, 10)] 3 (-1)) = 0%nat
   /\ verdict (CGrpc [(1, 10)] 1 (-1)) = 1%nat.
